@@ -433,7 +433,7 @@ func (w *Worker) havocVal(s *State, label string, t types.Type, nextLen func() i
 		case u.Info()&types.IsString != 0:
 			return opaqueStr(draw("String", "string"))
 		case u.Info()&types.IsFloat != 0:
-			return FloatV{0}
+			return FloatV{F: 0}
 		}
 	case *types.Struct:
 		sv := StructV{F: make([]Value, u.NumFields())}
